@@ -67,6 +67,20 @@ C16Fault(cfg, gen) ==
        \cup (IF Len(gen.files) # 0 THEN {VG("C16." \o cfg.fault \o "_nofile", cfg.fault)} ELSE {})
   ELSE {}
 
+\* alternative renderings of the same run (other channel split, permuted entry order, plain repetition,
+\* permuted declaration order): C14 compares the raw response bytes, C15 / C16 the generated file
+AltViol(cfg, gen) ==
+  UNION {
+    LET a == cfg.alts[i]
+        r == gen.alts[i]
+        bytesClause == a.clause = "C14.same_sha"
+    IN IF r.exit # 0 \/ r.files # 1 THEN {VG(a.clause, a.name \o " failed")}
+       ELSE IF bytesClause /\ r.sha # gen.sha THEN {VG(a.clause, a.name)}
+       ELSE IF ~bytesClause /\ r.contentsha # gen.contentsha THEN {VG(a.clause, a.name)}
+       ELSE {}
+    : i \in DOMAIN cfg.alts }
+AltProps(cfg) == {cfg.alts[i].clause : i \in DOMAIN cfg.alts}
+
 \* ---------------------------------------------------------------------------
 \* C02 / C10: the real schema against the documented mapping
 PathOf(M, a) == M.path \o "." \o a
@@ -88,7 +102,9 @@ SchemaDiff(M, real) ==
            v(c) == IF inj THEN VG("C10.injected", PathOf(M, a)) ELSE V(c, F, "")
            ph == ~inj /\ F.placeholder
        IN (IF r.type # m.type \/ r.mode # m.mode THEN {v(IF ph THEN "C10.placeholder" ELSE "C02.type")} ELSE {})
-          \cup (IF r.required = r.optional THEN {v("C10.req_xor_opt")} ELSE {})
+          \* injected attributes carry their configured flags verbatim (a computed-only one is neither)
+          \cup (IF ~inj /\ r.required = r.optional THEN {v("C10.req_xor_opt")} ELSE {})
+          \cup (IF inj /\ r.optional # m.optional THEN {v("C10.injected")} ELSE {})
           \cup (IF r.required # m.required THEN {v(IF ph THEN "C10.placeholder" ELSE "C10.required")} ELSE {})
           \cup (IF r.computed # m.computed THEN {v(IF ph THEN "C10.placeholder" ELSE "C10.computed")} ELSE {})
           \cup (IF r.sensitive # m.sensitive THEN {v("C10.sensitive")} ELSE {})
